@@ -82,6 +82,14 @@ def oracle_pairing(inp):
 ORACLES = {'construct': oracle_construct, 'roundtrip': oracle_roundtrip, 'pairing': oracle_pairing}
 
 
+def _untranslated_names():
+    """names listed in Gen/Layouts.v's registry_untranslated (written by this run's translator)"""
+    import re
+    txt = (C.COQ / 'Gen' / 'Layouts.v').read_text()
+    m = re.search(r'Definition registry_untranslated : list msgdef := \[(.*?)\]\.', txt, flags=re.S)
+    return set(re.findall(r'mkMsg "(\w+)"', m.group(1))) if m else set()
+
+
 def replay(data):
     r = data['replay']
     return ORACLES[r['oracle']](r['input']) is None
@@ -99,7 +107,10 @@ def run(ctx):
         terms.append(t)
         meta.append(info)
 
+    judged = set()
+
     def oracle(name, inp, key):
+        judged.add(key)
         msg = ORACLES[name](inp)
         if msg and key not in fails:
             fails[key] = C.Violation(key=key, what='%s: %s' % (inp['cls'], msg), replay={'oracle': name, 'input': inp})
@@ -174,6 +185,20 @@ def run(ctx):
                 bs = U.attempt(lambda: U.encode_env(cls, bad2))
                 add('chk_enc %s %s %s' % (L, U.c_env(bad2), U.xres(bs, C.c_hex)), ('enc-malformed', name, 'none'))
                 D.add((name, repr(bad2)), True, 'malformed-none')
+    # downgrade rule: classes the translator could not express in this run are not in [registry];
+    # no model term exists for them (their terms are dropped) and the oracle must have judged them
+    untranslated = _untranslated_names()
+    res.extra['classes_untranslated'] = sorted(untranslated)
+    if untranslated:
+        keep = [i for i, m in enumerate(meta) if not (len(m) > 1 and m[1] in untranslated)]
+        terms[:] = [terms[i] for i in keep]
+        meta[:] = [meta[i] for i in keep]
+        for n in sorted(untranslated):
+            if 'roundtrip:' + n not in judged and 'construct:' + n not in judged:
+                fails['downgraded-without-oracle:' + n] = C.Violation(
+                    key='downgraded-without-oracle:' + n, found_input=False,
+                    what='%s is outside the translator fragment and was not judged by the oracle' % n,
+                    replay={'class': n})
     failing, errors = C.coq_cases('C01', 'Model.Codec Gen.Layouts Corr.C01', terms)
     res.mismatches = [{'case': meta[i], 'term': terms[i][:400]} for i in failing[:50]]
     res.corr_errors = errors
